@@ -27,7 +27,7 @@ func (verifErrT) Error() string { return "verif action error" }
 
 var (
 	verifTrace   []verifEntry
-	verifFailAt  = -1
+	verifFailAt        = -1
 	verifTheErr  error = verifErrT{}
 	verifCurScan *verifScanner
 )
